@@ -146,7 +146,7 @@ class ShuffleBase(Expr):
                 ValueCounts,
                 MemoryUsage,
             ),
-        ):
+        ) and self._is_length_preserving:
             return type(parent)(self.frame, *parent.operands[1:])
 
     def _layer(self):
@@ -366,6 +366,11 @@ class SimpleShuffle(PartitionsFiltered, Shuffle):
     ]
 
     _defaults = {"_partitions": None}
+
+    @property
+    def _is_length_preserving(self):
+        # a subset of the output partitions only holds some rows of the frame
+        return not self._filtered
 
     @functools.cached_property
     def _meta(self):
